@@ -68,7 +68,8 @@ from typing import *
 from utype import Schema, Field, Rule, Param
 
 @utype.parse
-def f(a: 'T', *rest: 'T', k: Optional['T'] = None, **kw: 'T') -> 'T':
+def f(a: 'T', b: 'Q' = 1, *rest: 'T', k: Optional['T'] = None, **kw: 'T') -> 'T':
+    a.q = a.q + b
     return a
 
 @utype.parse
@@ -81,10 +82,10 @@ class T(Schema):
 
 class Q(int, Rule):
     ge = 0
-CALLS = [
-    lambda: f({"x": "1"}, {"x": 2, "q": "3"}, k={"x": 4}, z={"x": "5"}),
+CALLS = [     # the first two calls go to the SAME function (two threads share one parser), both with positional arguments
+    lambda: f({"x": "1"}, "3", {"x": 2, "q": "3"}, k={"x": 4}, z={"x": "5"}),
+    lambda: f({"x": "8"}, 5),
     lambda: g([{"x": 6}, {"x": "7", "q": -1}]),
-    lambda: f({"x": "8"}),
 ]
 '''
 W3 = '''
